@@ -55,6 +55,36 @@ def _agg_of(b, defs, local):
     return out
 
 
+_CALLERS = {}
+
+
+def _callers(F, path):
+    """(caller function path, ancestors of the call node, caller's own path) for every call of the crate function `path`"""
+    if id(F) not in _CALLERS:
+        _CALLERS.clear()
+        idx = {}
+        for cb in F.all_bodies():
+            if not cb.hir or "tests" in cb.file:
+                continue
+            for n, anc in hir.walk_ctx(cb.hir.get("value") or {}):
+                d = hir.call_def(n) if n.get("k") in ("call", "mcall") else None
+                if d and F.has(d):
+                    idx.setdefault(d, []).append((cb.path.split("::{closure")[0], anc, cb.path))
+        _CALLERS[id(F)] = idx
+    return _CALLERS[id(F)].get(path, [])
+
+
+def _caller_kinds(F, path, depth=0):
+    out = set()
+    for fn, anc, _own in _callers(F, path):
+        k = classify(anc, fn)
+        if k == "other" and depth < 1 and fn != path:
+            out |= _caller_kinds(F, fn, depth + 1)
+        elif k != "other":
+            out.add(k)
+    return out
+
+
 def rule_l1(F):
     r = RuleResult("C02.L1", "layout walks agree: enum-variant walks start with the 1-byte tag, record walks do not; fields are added front to back", floor=10)
     n_enum = n_rec = 0
@@ -76,7 +106,13 @@ def rule_l1(F):
                         outer = anc
         for n, anc in hir.walk_ctx(b.hir.get("value") or {}):
             if n.get("k") == "call" and (hir.call_def(n) or "").endswith("LayoutBuilder::new"):
-                sites.append((n["line"], classify(outer + anc, fnpath)))
+                k_ = classify(outer + anc, fnpath)
+                if k_ == "other":
+                    # a walk moved into a private helper: what it walks over is told by the place it is called from
+                    ks = _caller_kinds(F, fnpath)
+                    if len(ks) == 1:
+                        k_ = next(iter(ks))
+                sites.append((n["line"], k_))
         if not sites:
             continue
         defs = mir.Defs(b)
@@ -160,6 +196,12 @@ def rule_l1(F):
     need = {"Pool::layout_of": "mir::ty::Pool::layout_of", "location (VariantField)": "::location", "clone body": "generate_clone_body_enum",
             "drop body": "generate_drop_body_enum", "eq body": "generate_eq_body_enum"}
     have = [k.split(" line-free")[0] for k in r.instances if " line-free enum" in k]
+    for h_ in list(have):
+        # the function that calls the helper holding the walk has that walk too
+        for c1 in _callers(F, h_.split("::{closure")[0]):
+            have.append(c1[0])
+            for c2 in _callers(F, c1[0]):
+                have.append(c2[0])
     for label, suffix in need.items():
         if not any(suffix in h for h in have):
             r.bad("layout walks", "missing enum walk: " + label, "-", 0,
